@@ -31,6 +31,10 @@ class TcpServer(object):
         self.__onNewConnectionCallback = onNewConnection
         self.__connectionTimeout = connectionTimeout
 
+    @property
+    def binded(self):
+        return self.__state == SERVER_STATE.BINDED
+
     def bind(self):
         self.__socket = socket.socket(self.__hostAddrType, socket.SOCK_STREAM)
         self.__socket.setsockopt(socket.SOL_SOCKET, socket.SO_SNDBUF, self.__sendBufferSize)
